@@ -131,13 +131,8 @@ def handlers : List (String × (List Sexp → String)) := [
       let dl ← dl.nat?
       let sp ← spec? sp
       let sel := parseLambda tops dl sp
-      -- class predicate of the posonly finding for the true node `tgt` (an id, or `none`)
-      let amb := match tgt.nat? with
-        | some i => match (lambdaNodes dl tops).find? (·.id == i) with
-          | some c => posonlyAmbiguity (lambdaNodes dl tops) dl c
-          | none => false
-        | none => false
-      pure (toString (Sexp.list [selS sel, Sexp.ofBool amb])))
+      let _ := tgt
+      pure (toString (Sexp.list [selS sel])))
 ]
 
 end Malt.Drv.C15
